@@ -57,6 +57,102 @@ def origin_set(an):
     return out, roots
 
 
+def check_document_shape(ctx):
+    """The functions of the load route that treat a parameter as a mapping (`tree.get`, `tree[k]`, `tree.items()`) are entered
+    with a *sub-value of the document* or with a caller's untyped value only under a dominating `isinstance(<that value>,
+    dict)`: whatever the document holds where a sub-configuration is declared (a number, a list, a string), the value reaches
+    `_set_value`, which rejects it with a ValidationError naming the field, instead of failing with AttributeError on the way."""
+    from engine.flow import guard_atoms
+    an, model = ctx.an, ctx.model
+    Config = model.cls("Config")
+    MAPPING_USE = ("get", "items", "keys", "values", "update", "pop", "setdefault")
+    consumers = {}
+    for nm in ("_process_includes", "load_tree"):
+        f = Config.methods.get(nm)
+        if f is None:
+            continue
+        for p_ in f.positional_params[1:]:
+            used = any(isinstance(x, ast.Attribute) and x.attr in MAPPING_USE and isinstance(x.value, ast.Name) and x.value.id == p_
+                       and isinstance(getattr(x, "_parent", None), ast.Call) and x._parent.func is x for x in ast.walk(f.node)) or \
+                any(isinstance(x, ast.Subscript) and isinstance(x.value, ast.Name) and x.value.id == p_ for x in ast.walk(f.node))
+            if used and p_ in ("tree", "value", "data", "document") or (used and nm == "_process_includes" and p_ == f.positional_params[2]):
+                consumers[f] = p_
+    ctx.need(len(consumers) >= 2, "the mapping-consuming functions of the load route were not found")
+    nsites = 0
+    for fn in an.fns():
+        g = an.cfg(fn)
+        for n in g.nodes:
+            if n.kind != "call":
+                continue
+            for t in an.targets(fn, n):
+                if t.kind != "fn" or t.fn not in consumers:
+                    continue
+                arg = an.bind_args(t, fn, n).get(consumers[t.fn])
+                if arg is None:
+                    continue
+                # what is handed in: a sub-value of a mapping / an untyped parameter of the caller (must be tested), the
+                # caller's own mapping handed on or a freshly parsed / built document (nothing to test)
+                subvalue = isinstance(arg, ast.Subscript) or (isinstance(arg, ast.Call) and isinstance(arg.func, ast.Attribute) and arg.func.attr == "get")
+                srcs = value_sources(fn, arg, n) if isinstance(arg, ast.Name) else []
+                if isinstance(arg, ast.Name):
+                    subvalue = any(k == "expr" and (isinstance(pl, ast.Subscript) or (isinstance(pl, ast.Call) and isinstance(pl.func, ast.Attribute)
+                                                                                     and pl.func.attr == "get")) for k, pl in srcs) or \
+                        any(k in ("iter", "unpack") for k, pl in srcs)
+                    own_param = any(k == "param" for k, pl in srcs)
+                    if own_param and fn in consumers and all(k == "param" and pl == consumers[fn] for k, pl in srcs):
+                        continue            # the caller's own mapping, handed on
+                    if own_param and not subvalue:
+                        subvalue = fn.cls is not None and fn.name in ("_set_value", "_validate", "__setitem__", "_adopt_config")
+                        if not subvalue:
+                            continue        # an API entry point given the whole tree by its caller
+                if not subvalue:
+                    continue
+                nsites += 1
+                texts = {ast.unparse(arg)}
+                if isinstance(arg, ast.Subscript):
+                    texts.add("%s.get(%s)" % (ast.unparse(arg.value), ast.unparse(arg.slice)))
+                if isinstance(arg, ast.Call):
+                    texts.add("%s[%s]" % (ast.unparse(arg.func.value), ast.unparse(arg.args[0])) if arg.args else "")
+                roots = set()
+                for k, pl in (srcs if isinstance(arg, ast.Name) else []):
+                    if k == "param":
+                        roots.add(("param", pl))
+                    elif k == "expr" and isinstance(pl, ast.AST) and not (isinstance(pl, ast.Constant) and pl.value is None):
+                        texts.add(ast.unparse(pl))
+                # the caller specialised for "the value is not a mapping" (and is / is not a configuration): whatever form the test
+                # takes -- a branch, a flag combined with others, an early exit -- the call must be unreachable
+                from engine.specialize import Spec
+
+                def is_root(x, node, sp):
+                    if ast.unparse(x) in texts:
+                        return True
+                    if isinstance(x, ast.Name):
+                        ss = sp.sources(x, node) if sp.rd is not None else value_sources(fn, x, node)
+                        ss = [(k, pl) for k, pl in ss if not (k == "expr" and isinstance(pl, ast.Constant) and pl.value is None)]
+                        return bool(ss) and all((k == "param" and ("param", pl) in roots) or (k == "expr" and isinstance(pl, ast.AST) and ast.unparse(pl) in texts)
+                                                for k, pl in ss)
+                    return False
+                tested = True
+                for is_cfg in (True, False):
+                    def decide(e, node, sp, is_cfg=is_cfg):
+                        if isinstance(e, ast.Call) and isinstance(e.func, ast.Name) and e.func.id == "isinstance" and len(e.args) == 2 and is_root(e.args[0], node, sp):
+                            spec = an.ft(fn).class_spec(e.args[1], {}) or []
+                            if spec and all(s_ in ("dict", "OrderedDict", "Mapping", "MutableMapping") for s_ in spec):
+                                return False
+                            if spec == ["Config"]:
+                                return is_cfg
+                        return None
+                    spx = Spec(an, fn, decide)
+                    if n in spx.nodes:
+                        tested = False
+                ctx.ob("document-shape.mapping-tested", fn, n.ast, tested,
+                       "the value is handed to %s only after isinstance(..., dict)" % t.fn.qualname if tested else
+                       "%s hands %s to %s, which uses it as a mapping, without testing that it is one: a document with a number, list or string "
+                       "where a sub-configuration is declared fails with AttributeError instead of a ValidationError naming the field"
+                       % (fn.qualname, ast.unparse(arg)[:40], t.fn.qualname), node=n)
+    ctx.need(nsites >= 2, "no call site hands a document sub-value to the mapping-consuming functions: vanished anchors")
+
+
 def check(ctx):
     an, model = ctx.an, ctx.model
     VE = model.cls("ValidationError")
@@ -385,6 +481,9 @@ def check(ctx):
                    "items are validated while the list fills (generator consumed by list.__init__): an error names the index reached" if lazy or in_loop else
                    "all items are validated before any is stored: _get_item_position (index(item) / len(self)) sees an empty list and every "
                    "error is reported at the wrong (or no) index", node=n)
+
+    # ---------------------------------------------------------------- C15.3c a document value is used as a mapping only after it was tested to be one
+    check_document_shape(ctx)
 
     # ---------------------------------------------------------------- C15.4 DictProxy
     dv = model.method("DictProxy", "_validate")
